@@ -446,12 +446,24 @@ let run_v1 (path : string) =
         let sum_c = L.fold_left (fun acc (_, a) -> zadd acc a.o_cur) zzero !curA in
         let sum_d = if !cf.v_lend then zzero else L.fold_left (fun acc (_, a) -> zadd acc a.i_cur) zzero !curA in
         let res_c = zsub o.vb.(0) sum_c and res_d = zsub o.vb.(1) sum_d in
-        if !cf.v_lend then begin
-          (* lend: the unpaid part of the advertised bonus stays in the account; it must never be negative *)
-          if BinInt.Z.ltb res_c zzero || not (zeq res_d zzero) then
-            predfail ~case:!case ~step:!step ~pred:"holds_C10_custody(v1-lend)" ~kf:"none" ~detail:("res_c=" ^ zs res_c ^ "_res_d=" ^ zs res_d)
-        end else if not (holds_C10_custody res_c res_d) then
-          predfail ~case:!case ~step:!step ~pred:"holds_C10_custody(v1)" ~kf:"none" ~detail:("res_c=" ^ zs res_c ^ "_res_d=" ^ zs res_d);
+        if not !cf.v_lend then begin
+          if not (holds_C10_v1_custody res_c res_d) then
+            predfail ~case:!case ~step:!step ~pred:"holds_C10_v1_custody" ~kf:"none" ~detail:("res_c=" ^ zs res_c ^ "_res_d=" ^ zs res_d)
+        end else begin
+          (* lend: everything that ever entered the account went to bidders / owners or is still there; the
+             accounting identity of c10_v1_custody must hold at every step, the custody clause itself once no
+             auction is live (while one is, the pre-funded bonus still to be paid sits in the account) *)
+          let funded = zadd (zadd o.vb.(0) o.vb.(2)) (zadd o.vb.(7) (zadd o.vb.(9) o.vb.(11))) in
+          let coll_total = Hashtbl.fold (fun _ (_, c) acc -> zadd acc c) info zzero in
+          let bonus_total = Hashtbl.fold (fun _ (_, _, b) acc -> zadd acc b) sums zzero in
+          if not (zeq res_c (zsub (zsub funded coll_total) bonus_total)) || BinInt.Z.ltb res_c zzero || not (zeq res_d zzero) then
+            predfail ~case:!case ~step:!step ~pred:"v1_lend_accounting" ~kf:"none"
+              ~detail:("res_c=" ^ zs res_c ^ "_res_d=" ^ zs res_d ^ "_funded=" ^ zs funded ^ "_coll=" ^ zs coll_total ^ "_bonus=" ^ zs bonus_total)
+          else if !curA = [] && not (holds_C10_v1_custody res_c res_d) then begin
+            let kf = if kf_C10_4 true funded coll_total bonus_total then "kf_C10_4" else "none" in
+            predfail ~case:!case ~step:!step ~pred:"holds_C10_v1_custody" ~kf ~detail:("res_c=" ^ zs res_c ^ "_no_auction_live")
+          end
+        end;
         prevL := Some o; prevA := !curA
       | _ -> ()) lines;
   end_case ();
